@@ -14,7 +14,7 @@ import numpy as np
 
 from ..poly import z3mod
 from ..tv import project_block
-from ..dromodels import CompiledDRO, dro_hold
+from ..dromodels import CompiledDRO, dro_hold, piece_polys
 from ..drogen import MAY_RAISE
 from ..drogen import members, lookup
 from ..smt import HarnessError, fval
@@ -39,7 +39,117 @@ META = dict(
 
 def cases(tier, seed, rnd):
     n = 12 if tier == 'quick' else 400
-    return [dict(name=n_) for n_ in members()] + [dict(name='rand%d' % rnd.randint(0, 10 ** 6)) for _ in range(n)]
+    from ..drogen import soc_members
+    return [dict(name=n_) for n_ in members()] + [dict(name='rand%d' % rnd.randint(0, 10 ** 6)) for _ in range(n)] + \
+        [dict(name=n_, conic=True) for n_ in soc_members(tier)] + \
+        [dict(name='randsoc%d' % rnd.randint(0, 10 ** 6), conic=True) for _ in range(6 if tier == 'quick' else 60)]
+
+
+# ------------------------------------------------------------------ conic supports / expectation sets: better-point witnesses
+def conic_values(cm, rows, assign):
+    """Worst-case value of every row at the decisions `assign` over the TRUE ambiguity set: by Lemma M (rsv.dromoments) the
+    supremum of a convex piecewise-affine expectation over the set equals the optimum of a conic LP in the moments (solved
+    with ECOS); plain rows: per scenario and piece one conic LP over the support (q = 1)."""
+    from .. import dromoments as dm
+    from .c03 import worst_realisation
+    out = {}
+    for row in rows:
+        groups, sense = piece_polys(row['cons'])
+        worst = None
+        for g in groups:
+            for sgn in ((1, -1) if sense == 'eq' else (1,)):
+                gg = [q * sgn for q in g]
+                if row['kind'] == 'E':
+                    w = dm.worst_moments_ecos(cm, row['F'], gg, assign, len(gg))
+                    if w is None:
+                        return None
+                    v = w[0]
+                elif row['F'] is None or not any(q.subs(assign).degree() > 0 for s_ in range(cm.o.ns) for q in [cm.inst(pz, s_) for pz in gg]):
+                    v = max(float(cm.inst(pz, s_).subs(assign).constant()) for s_ in range(cm.o.ns) for pz in gg)
+                else:
+                    v = None
+                    for s_ in range(cm.o.ns):
+                        for pz in gg:
+                            inst = cm.inst(pz, s_).subs(assign)
+                            z = worst_realisation(cm, row['F'], s_, inst)
+                            if z is None:
+                                return None
+                            val = float(inst.evalf(z))
+                            v = val if v is None or val > v else v
+                worst = v if worst is None or v > worst else worst
+        out[row['label']] = worst
+    return out
+
+
+def run_conic(case, ses):
+    """Exactness probe for members with conic supports / expectation sets (no exists-forall decision procedure within reach):
+    starting from the solution RSOME returns, a local search over the decisions looks for a point that is feasible for every
+    row under its worst case (conic LPs over the true moment set) and whose worst-case objective is better than the reported
+    optimum.  Such a point is a certificate that the reformulation is conservative (e.g. a constraint of an expectation set was
+    dropped).  Numeric layer, reported separately; tolerance 1e-3 relative."""
+    from scipy.optimize import minimize
+    name = case['name']
+    try:
+        with quiet():
+            cm = CompiledDRO(lookup(name))
+            from rsome import eco_solver
+            cm.r.m.solve(eco_solver, display=False)
+            reported = float(cm.r.m.get())
+    except HarnessError:
+        raise
+    except Exception as e:  # noqa
+        ses.stats.kinds['member-rejected-or-unsolved'] = ses.stats.kinds.get('member-rejected-or-unsolved', 0) + 1
+        return
+    ses.stats.programs += 1
+    sign = cm.o.obj[0]
+    x = np.array(cm.r.m.solution.x, dtype=float)
+    names = [n for n in cm.iface if n != 't']
+    x0 = np.array([x[cm.iface[n]] for n in names])
+    rows = cm.rows()
+    objrow = [r for r in rows if r['label'] == 'obj'][0]
+    others = [r for r in rows if r['label'] != 'obj']
+    tval = reported * sign          # value of the epigraph variable of the internal min problem
+
+    def asg(v):
+        a = {n: Fraction(float(t)) for n, t in zip(names, v)}
+        a['t'] = Fraction(0)
+        return a
+
+    def fobj(v):
+        r = conic_values(cm, [objrow], asg(v))
+        return 1e6 if r is None or r['obj'] is None else r['obj']
+
+    def gcon(v):
+        r = conic_values(cm, others, asg(v))
+        if r is None:
+            return -1e6
+        return -max([t for t in r.values() if t is not None] + [-1e6])
+    ses.stats.obligations += 1
+    ses.stats.kinds['conic-better-point-search'] = ses.stats.kinds.get('conic-better-point-search', 0) + 1
+    f0 = fobj(x0)
+    margin = 1e-3 * (1 + abs(tval))
+    best = None
+    try:
+        res = minimize(fobj, x0, method='SLSQP', constraints=[dict(type='ineq', fun=gcon)] if others else [],
+                       options=dict(maxiter=40, ftol=1e-7, eps=1e-5))
+        cand = res.x
+        if gcon(cand) >= -1e-7 and fobj(cand) < tval - margin:
+            best = cand
+    except Exception as e:  # noqa
+        ses.stats.notes.append('%s: local search failed: %s' % (name, str(e)[:60]))
+    if best is not None:
+        data = dict(name=name, conic=True, point={n: float(t) for n, t in zip(names, best)}, reported=reported)
+        if replay(data):
+            finding(ses, 'C04:%s:conic-conservative' % name, 'dro model %s: decisions %s are feasible for every row under its worst '
+                    'case and have worst-case objective %.6g, better than the reported optimum %.6g'
+                    % (name, data['point'], fobj(best) * sign, reported), data, 'rsv.props.c04:replay')
+            return
+    if f0 > tval + margin:
+        ses.stats.notes.append('%s: worst-case objective at the returned point %.6g exceeds the reported %.6g (C03 territory)' % (name, f0, tval))
+    ses.stats.discharged += 1
+    ses.stats.nontrivial.add(name)
+    if len(ses.stats.samples) < 8:
+        ses.stats.samples.append(dict(model=name, reported=reported, worst_case_objective_at_returned_point=f0 * sign))
 
 
 def semantic(cm, vs, z3):
@@ -54,6 +164,8 @@ def semantic(cm, vs, z3):
 def run_case(case, ses):
     z3 = z3mod()
     name = case['name']
+    if case.get('conic'):
+        return run_conic(case, ses)
     try:
         with quiet():
             cm = CompiledDRO(lookup(name))
@@ -161,6 +273,24 @@ def replay(data, verbose=False):
     name = data['name']
     with quiet():
         cm = CompiledDRO(lookup(name))
+    if data.get('conic'):
+        # the point is feasible for every row under its worst case over the TRUE set and its worst-case objective beats the
+        # optimum the real solve() reports (re-solved here)
+        with quiet():
+            from rsome import eco_solver
+            cm.r.m.solve(eco_solver, display=False)
+            reported = float(cm.r.m.get())
+        sign = cm.o.obj[0]
+        a = {n: Fraction(float(t)) for n, t in data['point'].items()}
+        a['t'] = Fraction(0)
+        vals = conic_values(cm, cm.rows(), a)
+        if vals is None:
+            return False
+        worst_other = max([v for k, v in vals.items() if k != 'obj' and v is not None] + [-1e9])
+        if verbose:
+            print('dro model %s: reported optimum %.6g; at the decisions %s every row holds under its worst case (max %.3g) and the '
+                  'worst-case objective is %.6g' % (name, reported, data['point'], worst_other, vals['obj'] * sign))
+        return worst_other <= 1e-6 and vals['obj'] < reported * sign - 1e-3 * (1 + abs(reported))
     f = cm.formula
     if 'point' in data:
         pt = {k: float(Fraction(v)) for k, v in data['point'].items()}
